@@ -4,6 +4,7 @@ import PrioModel.AggParam
 import PrioModel.FieldInst
 import PrioModel.Agg
 import PrioModel.Prng
+import PrioModel.TraceVdaf
 
 /-! Line-protocol driver: one request per line on stdin, one answer per line on stdout. -/
 open Prio
@@ -311,6 +312,10 @@ def handle (line : String) : String :=
   match line.trimAscii.toString.splitOn " " with
   | "fp" :: rest => handleFp rest
   | "dec" :: rest => handleDec rest
+  | "pp" :: r :: sl :: sh :: toks =>
+    match r.toNat?, sl.toNat?, sh.toNat? with
+    | some r, some a, some b => Trace.runScript (Trace.agg r a b) toks
+    | _, _, _ => "bad-op"
   | "prng" :: rest => handlePrng rest
   | "prng2" :: rest => handlePrng2 rest
   | "genrand" :: rest => handleGenRand rest
